@@ -107,6 +107,12 @@ ADDENDA_6 = {
     "C11": " Registrations whose violating name fills the frame (0-300 bytes below the limit) must still be answered with an error frame.",
     "C14": " A quarter of the byte payloads already are compressed streams (zstd/gzip/zlib/lz4/brotli output).",
 }
+ADDENDA_7 = {
+    "C04": " Bulk family: 2-32 clones of one library requestor send requests of 20-900 kB at once to the library replier (one request at a time); every call must have returned, with its own reply or the timeout error, by its timeout plus 2 s.",
+    "C11": " Bulk family: the same well-formed bulk traffic must leave the topic usable: a fresh requestor's small request 30 virtual seconds later is answered.",
+    "C12": " The first registration frame must carry the configured settings (topic, retention, operations); publisher victims publish in feed-bursts large enough that a loss is first noticed by poll_ready.",
+    "C03": " An item whose encoding is far below the frame limit must not be refused as too large.",
+}
 ADDENDA = {
     "C02": " N part (slow-requestors): raw requestors behind 1 kB-1 MB stream windows burst requests at a library replier, stall, then read; each must receive exactly its own replies, once, intact, cid stripped.",
     "C03": " Also: truly empty items; 1-2 MB made of thousands of small messages under batch sizes up to 20000 (batches cut by encoded size); subscribers read during or only after publishing.",
@@ -132,7 +138,7 @@ def main():
         if pid not in CHECKS:
             continue
         cat, engine, technique, text, note, ref = CHECKS[pid]
-        text = text + ADDENDA.get(pid, "") + ADDENDA_3.get(pid, "") + ADDENDA_5.get(pid, "") + ADDENDA_6.get(pid, "")
+        text = text + ADDENDA.get(pid, "") + ADDENDA_3.get(pid, "") + ADDENDA_5.get(pid, "") + ADDENDA_6.get(pid, "") + ADDENDA_7.get(pid, "")
         engine = ENGINE_OVERRIDE.get(pid, engine)
         checks.append({
             "property_id": pid,
